@@ -42,7 +42,7 @@ Half      == <<"q", 1, 2>>
 NInf      == <<"ninf">>
 Pi        == <<"pi">>
 X(i)      == <<"x", i>>
-Z(i, id)  == <<"z", i, id>>
+ZLeaf(i, id)  == <<"z", i, id>>
 
 Tag(e)    == e[1]
 IsQ(e)    == e[1] = "q"
